@@ -140,3 +140,14 @@ Example c11_flip_bit_xor_instance :
 Proof.
   rewrite (c11_flip_bit_xor ack_frame 5 3 c11_flip_bit_xor_nonvacuous). vm_compute. reflexivity.
 Qed.
+
+(* ---- the translated routine on the check string ---- *)
+From Coq Require Import String.
+From LW Require Import Base.CExpr Gen.Sites Spec.CodeSpec.
+Local Open Scope string_scope.
+Local Open Scope Z_scope.
+Example c11_code_crc32_refines_model_instance :
+  wfbytes check_msg /\ zlen check_msg < 2 ^ 31 /\
+  observe (exec (60 * List.length check_msg + 60) (mem_at 4096 check_msg) (upd (upd (fun _ => 0) "message" 4096) "message_len" (zlen check_msg)) []
+                body_libwifi_crc32) = Some (Some 3421780262, []).
+Proof. split; [exact wf_check | ]. split; vm_compute; reflexivity. Qed.
